@@ -347,6 +347,19 @@ def install(eng):
     def m_wraps(eng, st, args, kw):
         yield st, Model("wraps-identity", lambda e, s, a, k: iter([(s, a[0])]))
 
+    def _str_affix(name, fn):
+        def model(eng, st, args, kw):
+            self, affix = args[0], args[1]
+            if len(args) != 2 or not isinstance(affix, str):
+                raise Unsupported(f"str.{name} with a symbolic affix or a range")
+            t = self.t if isinstance(self, SV) else eng.lift(self, st)
+            yield st, SV(V.mk_bool(fn(z3.StringVal(affix), V.Val.s(t))))
+
+        return Model(f"str.{name}", model)
+
+    eng.method_models.setdefault((str, "startswith"), _str_affix("startswith", z3.PrefixOf))
+    eng.method_models.setdefault((str, "endswith"), _str_affix("endswith", z3.SuffixOf))
+
     @reg(functools.total_ordering)
     def m_total_ordering(eng, st, args, kw):
         # the class itself: the derived operators (<=, >, >=) are not modelled, using one of them is unsupported
